@@ -100,7 +100,7 @@ impl Property for C17 {
     }
     fn cases(&self, tier: Tier) -> u32 {
         match tier {
-            Tier::Quick => 8_000,
+            Tier::Quick => 20_000,
             Tier::Thorough => 250_000,
         }
     }
@@ -466,7 +466,7 @@ impl Property for C19 {
     }
     fn cases(&self, tier: Tier) -> u32 {
         match tier {
-            Tier::Quick => 6_000,
+            Tier::Quick => 15_000,
             Tier::Thorough => 150_000,
         }
     }
